@@ -32,12 +32,8 @@ def args_setup(overrides=None, keys=("N", "fs", "olap", "bmin", "Lmin", "Jdes", 
         d = {}
         kinds = {"N": "int", "fs": "real", "olap": "real", "bmin": "real", "Lmin": "int", "Jdes": "int", "Kdes": "int"}
         for k in keys:
-            v = eng.fresh(k, kinds[k])
+            v = eng.fresh("arg_" + k, kinds[k])
             d[k] = v
-            genv[k] = v
-        for k in kinds:
-            if k not in genv:
-                genv[k] = (overrides or {}).get(k)
         eng.setvar(st, fid, "args", eng.alloc(st, DictV(d)))
 
     return setup
@@ -164,7 +160,29 @@ LTF_LOOPS = {
 
 LTF_REQ = list(ADMISSIBLE)
 
+
+def plan_result(eng, st, name, env):
+    """symbolic plan dict (result of a scheduler called by contract)"""
+    from pyvc.heap import DictV
+    from pyvc.loops import fresh_list
+    from pyvc import values as V
+
+    nf = eng.fresh("nf", "int")
+    st.assume(V.cmp(">=", nf, 0))
+    d = {"nf": nf}
+    for k, ty in (("f", "real"), ("r", "real"), ("b", "real"), ("m", "real"), ("L", "int"), ("K", "int"), ("navg", "int"), ("O", "real")):
+        d[k] = eng.alloc(st, eng.fresh_array("plan_" + k, (nf,), ty))
+    dl = fresh_list(eng, "plan_D", "list[list[int]]")
+    st.assume(V.cmp("==", dl.n, nf))
+    d["D"] = eng.alloc(st, dl)
+    return eng.alloc(st, DictV(d))
+
 UNITS = []
+
+ARG_GHOSTS = {"N": ("int", "args['N']"), "fs": ("real", "args['fs']"), "olap": ("real", "args['olap']"), "bmin": ("real", "args['bmin']"), "Lmin": ("int", "args['Lmin']"), "Jdes": ("int", "args['Jdes']"), "Kdes": ("int", "args['Kdes']")}
+CALL_ENS = dict(PLAN_POST)
+for _l, _t in {**BIN_C02, **BIN_C03}.items():
+    CALL_ENS[_l] = f"forall(0, result['nf'], lambda i: {_t})"
 
 UNITS.append(
     Unit(
@@ -173,12 +191,31 @@ UNITS.append(
         func="ltf_plan",
         props=["C02", "C03"],
         setup=args_setup(),
+        ghosts=dict(ARG_GHOSTS),
+        returns=plan_result,
         requires=LTF_REQ,
         loops=LTF_LOOPS,
         ensures={**PLAN_POST, **D_LEMMAS, **BIN_C02, **BIN_C03},
         post_hook=bin_ghost,
-        opts={"ghost_defs": GD, "callee": True},
+        opts={"ghost_defs": GD, "callee": True, "call_ensures": CALL_ENS},
         raises={},
+    )
+)
+
+# lpsd_plan == ltf_plan with bmin=1.0, Lmin=1 (C03): the wrapper is proved against ltf_plan's
+# contract; its posts are the same per-bin statements with those two values
+UNITS.append(
+    Unit(
+        id="schedulers.lpsd_plan",
+        module=M,
+        func="lpsd_plan",
+        props=["C02", "C03"],
+        setup=args_setup(keys=("N", "fs", "olap", "Jdes", "Kdes")),
+        ghosts={**{k: v for k, v in ARG_GHOSTS.items() if k not in ("bmin", "Lmin")}, "bmin": ("real", "1.0"), "Lmin": ("int", "1")},
+        requires=[c for c in ADMISSIBLE if "bmin" not in c and "Lmin" not in c],
+        ensures={**PLAN_POST, **BIN_C02, **BIN_C03},
+        post_hook=bin_ghost,
+        opts={"ghost_defs": GD},
     )
 )
 
